@@ -404,7 +404,11 @@ class Representation:
             where `length` is an integer and `state` is a vertex of
             the automaton. If `None`, use an empty dictionary. In
             either case, the dictionary will be populated when the
-            function is called.
+            function is called. Values computed with non-default
+            options (`maxlen`, `with_words`, `end_state`,
+            `edge_words`) are stored under keys extended by these
+            options, so the same dictionary can be passed to calls
+            with different options.
         edge_words : bool
             If True, view each label of the given automaton as a word
             in the generators for this representation. Otherwise,
@@ -464,8 +468,14 @@ class Representation:
         if precomputed is None:
             precomputed = {}
 
-        if (length, state) in precomputed:
-            return precomputed[(length, state)]
+        # the value also depends on the options: only the default
+        # options use the plain key (length, state)
+        options = (as_start, maxlen, with_words, edge_words)
+        if options == (True, True, False, True):
+            options = ()
+
+        if (length, state) + options in precomputed:
+            return precomputed[(length, state) + options]
 
         empty_arr = np.array([]).reshape((0, self.dim, self.dim))
 
@@ -551,7 +561,7 @@ class Representation:
         else:
             accepted = accepted_matrices
 
-        precomputed[(length, state)] = accepted
+        precomputed[(length, state) + options] = accepted
         return accepted
 
     def elements(self, words):
